@@ -102,6 +102,10 @@ def check_calls(ck, repo, func, outs, label):
                 path = src[1]
                 fact = o.facts.get(path)
                 v = c.bound.get(q)
+                if q in getattr(c, "defaulted", set()) and fact == "none" and isinstance(callee.defaults.get(q), ast.Constant) \
+                        and callee.defaults[q].value is None:
+                    ck.ob("F1", func.qualname, "call of %s forwards the caller's %s" % (callee.qualname, q), c.where, True)
+                    continue
                 if q in getattr(c, "defaulted", set()):
                     ck.ob("F1", func.qualname, "call of %s forwards the caller's %s" % (callee.qualname, q), c.where, False,
                           "%s is left to the callee's default although the caller has its own %s" % (q, path), config=label)
@@ -242,6 +246,13 @@ def check_step(ck, pm: PM):
         want = Pk.items[i] if isinstance(Pk, TupV) and len(Pk.items) == 2 else None
         ok = want is not None and (a is want or key_equiv(val_key(a), val_key(want)))
         ck.ob("F6", fq, "flux call of step k uses the reported permeance %d of step k" % (i + 1), c.where, ok, expected=repr(want)[:200], found=repr(a)[:200])
+    # the separation factor of a process model divides reported permeate by reported feed fractions: both must be mass fractions
+    X = pm.series("feed_compositions")
+    if X is not None:
+        elems = list(X.init) + list(X.per_iter)
+        ck.ob("F5", fq, "reported feed compositions are mass fractions (the basis of the reported permeate compositions)", where,
+              bool(elems) and all(comp_type(pm, e) == "weight" for e in elems),
+              found=", ".join(str(comp_type(pm, e)) for e in elems))
     # F4 on the reported permeate composition
     Y = pm.series("permeate_composition")
     if J is not None and Y is not None and len(Y.per_iter) == 1 and isinstance(J.per_iter[0], TupV):
